@@ -208,6 +208,16 @@ func judgeC12(c ReqCase) *Fail {
 		}
 		seen[w[cr.Id]] = true
 	}
+	// equal weights are ordered by the seeded generator: the oracle tries every tie-break, which is only feasible for few
+	tieBreaks, cnt := 1.0, map[float64]int{}
+	for _, cr := range snap.Crit {
+		cnt[w[cr.Id]]++
+		tieBreaks *= float64(cnt[w[cr.Id]])
+	}
+	if tieBreaks > 5040 {
+		st.inc("C12:too-many-tie-breaks-not-judged")
+		return nil
+	}
 	criteriaOrders(snap.Crit, w, func(corder []CritView) bool {
 		try := func(p []int) bool {
 			order := make([]SnapAlt, len(p))
@@ -288,6 +298,7 @@ func genC12(t *rapid.T) ReqCase {
 	if g.Chance(1, 2) {
 		o.FixedOrder = true
 		o.MaxAlts = 7
+		o.BigTiers = true
 	}
 	return mkReqCase(genHeuristicReq(t, o))
 }
@@ -516,6 +527,7 @@ func genC13(t *rapid.T) ReqCase {
 	if g.Chance(1, 2) {
 		o.FixedOrder = true
 		o.MaxAlts = 7
+		o.BigTiers = true
 	}
 	return mkReqCase(genHeuristicReq(t, o))
 }
